@@ -27,7 +27,13 @@ CONSTANTS ChunkStarts,    \* values of sequence_number_chunksize_start explored
                           \* lost messages, or a peer that restarted and skipped its own chunk;
                           \* 2*WSize-2 still shifts the window, 2*WSize-1 and more leave it behind
           MaxJump,        \* number of fresh requests that may skip numbers
-          MaxProtect, MaxUnprotect, MaxCrash, MaxClean    \* budgets of the environment
+          MaxProtect, MaxUnprotect, MaxCrash, MaxClean,   \* budgets of the environment
+          MaxRespond,     \* responses (and rendered Echo errors) the context protects
+          MaxResponse     \* responses of the peer the context unprotects
+
+(* what only DoRespond / DoEchoErr / DoResponse read is not tracked in runs without them *)
+TrackAnswers   == MaxRespond > 0
+TrackResponses == MaxResponse > 0
 
 Min2(a, b) == IF a <= b THEN a ELSE b
 Max2(a, b) == IF a >= b THEN a ELSE b
@@ -44,6 +50,9 @@ ObsInit(mx) ==
     accNow  |-> {},      \* ... in this lifetime
     stop    |-> "none",  \* how the previous lifetime ended: none | crash | clean
     echoed  |-> FALSE,   \* a request carrying this lifetime's Echo was accepted
+    reused  |-> {},      \* request numbers n whose nonce <<peer, n>> the context has
+                         \* encrypted with under its sender key (a response that re-uses
+                         \* the request's nonce instead of taking a number of its own)
     bad     |-> {} ]
 
 Flag(o, cs) == [o EXCEPT !.bad = @ \cup cs]
@@ -62,6 +71,8 @@ ObsEvent(o, e) ==
                    \cup (IF e.n <= o.last THEN {"C13_StrictlyIncreasing"} ELSE {})
                    \cup (IF e.n >= o.mx THEN {"C13_RefuseAtMax"} ELSE {})
          IN [Flag(o, cs) EXCEPT !.issued = AddTo(@, e.n), !.last = e.n]
+    [] e.k = "reused" ->    \* the nonce is <<generator, partial IV>>: own numbers above, the peer's here
+         [Flag(o, IF e.n \in o.reused THEN {"C13_NoReuse"} ELSE {}) EXCEPT !.reused = @ \cup {e.n}]
     [] e.k = "accept" ->
          LET cs == IF e.n \in o.accOld
                      THEN IF o.stop = "crash" THEN {"C13_UncleanMeansUnknown"}
@@ -114,11 +125,16 @@ ASSUME StrikeRegimesAgree ==
     IN Valid(w, WSize, n) => Strike(w, WSize, n) = StrikeByShift(w, WSize, n)
 
 Dead(s) == [s EXCEPT !.alive = FALSE, !.ssn = 0, !.pers = 0, !.chunk = 0, !.rwp = FALSE,
-                     !.win = NoWin, !.op = Idle]
+                     !.win = NoWin, !.op = Idle, !.req = FALSE, !.held = {}, !.fresh = {}, !.err = FALSE]
 
 SInit(cs, cl, mx, w) ==
   [ cs |-> cs, cl |-> cl, mx |-> mx, w |-> w,
     alive |-> FALSE, ssn |-> 0, pers |-> 0, chunk |-> 0, rwp |-> FALSE, win |-> NoWin,
+    req   |-> FALSE,   \* a request of its own was protected in this lifetime (it can be answered)
+    held  |-> {},      \* requests accepted in this lifetime (the application holds their request_id)
+    fresh |-> {},      \* ... whose nonce may still be re-used by a response: accepted through the
+                       \* window (RequestIdentifiers.can_reuse_nonce), not yet answered
+    err   |-> FALSE,   \* a ReplayErrorWithEcho is waiting to be rendered (4.01 + Echo)
     disk |-> NoDisk, tmp |-> 0, op |-> Idle ]
 
 (* __init__ / _load *)
@@ -137,14 +153,34 @@ Snapshot(s) == [ex |-> TRUE, next |-> s.pers, unk |-> ~s.rwp, win |-> IF s.rwp T
 
 Refuses(s) == s.ssn >= s.mx                      \* new_sequence_number raises ContextUnavailable
 
-(* new_sequence_number + post_seqnoincrease up to the call of _store *)
-BeginProtect(s) ==
+(* new_sequence_number + post_seqnoincrease up to the call of _store; kind = what is
+   protected with the new number: "protect" a request, "respond" a response that can not
+   (or no longer) re-use the request's nonce, "echoerr" the 4.01 + Echo *)
+BeginIssue(s, kind) ==
   LET n  == s.ssn
-      s1 == [s EXCEPT !.ssn = n + 1]
+      s1 == [s EXCEPT !.ssn = n + 1, !.req = @ \/ (TrackResponses /\ kind = "protect")]
   IN IF n + 1 > s.pers
        THEN LET s2 == [s1 EXCEPT !.pers = @ + s.chunk, !.chunk = Min2(2 * @, s.cl)]
-            IN [s2 EXCEPT !.op = [k |-> "protect", step |-> 0, n |-> n, echo |-> "none", data |-> Snapshot(s2)]]
-       ELSE [s1 EXCEPT !.op = [k |-> "protect", step |-> 4, n |-> n, echo |-> "none", data |-> NoDisk]]
+            IN [s2 EXCEPT !.op = [k |-> kind, step |-> 0, n |-> n, echo |-> "none", data |-> Snapshot(s2)]]
+       ELSE [s1 EXCEPT !.op = [k |-> kind, step |-> 4, n |-> n, echo |-> "none", data |-> NoDisk]]
+BeginProtect(s) == BeginIssue(s, "protect")
+
+(* protect(response, request_id) for a request accepted in this lifetime: the request's nonce
+   <<peer, n>> exactly once, and only if the request went through the replay window *)
+ReusesNonce(s, n) == n \in s.fresh
+RespondReusing(s, n) == [s EXCEPT !.fresh = @ \ {n}]
+
+(* a request that is turned down while the window is unknown leaves a ReplayErrorWithEcho
+   behind; rendering it (to_message) protects a 4.01 with a number of the context's own *)
+Rejected(s, n) == IF TrackAnswers /\ ~s.win.init THEN [s EXCEPT !.err = TRUE] ELSE s
+
+(* unprotect of the peer's response to a request of this lifetime: without a partial IV of its
+   own it tells nothing about the peer's numbers; with one (a notification, piv >= 0) an
+   unknown window is initialised from it (nothing stored); a known window is not touched *)
+Response(s, piv) ==
+  IF piv >= 0 /\ ~s.win.init
+    THEN [s EXCEPT !.win = [init |-> TRUE, index |-> piv, seen |-> {piv}]]
+    ELSE s
 
 (* unprotect of an authentic request with number n: window check, strike-out,
    _replay_window_changed, or Echo recovery *)
@@ -153,10 +189,14 @@ Accepts(s, n, echo) ==
 
 BeginUnprotect(s, n, echo) ==
   IF ~s.win.init
-    THEN \* initialize_from_freshlyseen: no callback, nothing stored
+    THEN \* initialize_from_freshlyseen: no callback, nothing stored; the request_id was made
+         \* while the number could not be checked: its nonce is not for re-use
          [s EXCEPT !.win = [init |-> TRUE, index |-> n, seen |-> {n}],
+                   !.held = IF TrackAnswers THEN @ \cup {n} ELSE @,
                    !.op = [k |-> "unprotect", step |-> 4, n |-> n, echo |-> echo, data |-> NoDisk]]
-    ELSE LET s1 == [s EXCEPT !.win = Strike(s.win, s.w, n)]
+    ELSE LET s1 == [s EXCEPT !.win = Strike(s.win, s.w, n),
+                             !.held = IF TrackAnswers THEN @ \cup {n} ELSE @,
+                             !.fresh = IF TrackAnswers THEN @ \cup {n} ELSE @]
          IN IF s.rwp
               THEN LET s2 == [s1 EXCEPT !.rwp = FALSE]
                    IN [s2 EXCEPT !.op = [k |-> "unprotect", step |-> 0, n |-> n, echo |-> echo, data |-> Snapshot(s2)]]
@@ -180,7 +220,8 @@ Effects(s, c) ==     \* c effects in a row
 
 Finish(s) == IF s.op.k = "clean" THEN Dead(s) ELSE [s EXCEPT !.op = Idle]
 FinishEvent(s) ==
-  [k |-> CASE s.op.k = "protect" -> "issued" [] s.op.k = "unprotect" -> "accept" [] OTHER -> "clean",
+  [k |-> CASE s.op.k \in {"protect", "respond", "echoerr"} -> "issued"
+           [] s.op.k = "unprotect" -> "accept" [] OTHER -> "clean",
    n |-> s.op.n, echo |-> s.op.echo]
 
 Crash(s) == Dead(s)        \* the disk, including a temp file in flight, stays as it is
@@ -204,7 +245,7 @@ vars == <<s, env, obs, act, hist>>
 EnvInit == [ peerNext |-> 0,        \* next fresh request number of the peer
              sent     |-> << >>,    \* number -> lifetime whose Echo it carried (0: none)
              life     |-> 0,
-             np |-> 0, nu |-> 0, nc |-> 0, nk |-> 0, nj |-> 0 ]
+             np |-> 0, nu |-> 0, nc |-> 0, nk |-> 0, nj |-> 0, nr |-> 0, nq |-> 0 ]
 
 Has(f, k) == k \in DOMAIN f
 Put(f, k, v) == [x \in (DOMAIN f) \cup {k} |-> IF x = k THEN v ELSE f[x]]
@@ -257,9 +298,48 @@ DoUnprotect ==
                  THEN /\ s' = BeginUnprotect(s, n, echo)
                       /\ obs' = obs
                       /\ act' = Step("unprotect", n, echo)
-                 ELSE /\ s' = s
+                 ELSE /\ s' = Rejected(s, n)
                       /\ obs' = ObsEvent(obs, Step("reject", n, echo))
                       /\ act' = Step("reject", n, echo)
+
+(* the application answers a request it accepted in this lifetime (again: a notification) *)
+DoRespond ==
+  /\ s.alive /\ s.op.k = "idle" /\ env.nr < MaxRespond
+  /\ env' = [env EXCEPT !.nr = @ + 1]
+  /\ \E n \in s.held :
+       IF ReusesNonce(s, n)
+         THEN /\ s' = RespondReusing(s, n)
+              /\ obs' = ObsEvent(obs, Step("reused", n, "none"))
+              /\ act' = Step("reused", n, "none")
+         ELSE IF Refuses(s)
+           THEN /\ s' = s
+                /\ obs' = ObsEvent(obs, Step("refused", 0, "none"))
+                /\ act' = Step("norespond", n, "none")
+           ELSE /\ s' = BeginIssue(s, "respond")
+                /\ obs' = obs
+                /\ act' = Step("respond", n, "none")
+
+(* the 4.01 + Echo for a request turned down while the window is unknown is rendered *)
+DoEchoErr ==
+  /\ s.alive /\ s.op.k = "idle" /\ s.err /\ env.nr < MaxRespond
+  /\ env' = [env EXCEPT !.nr = @ + 1]
+  /\ IF Refuses(s)
+       THEN /\ s' = [s EXCEPT !.err = FALSE]
+            /\ obs' = ObsEvent(obs, Step("refused", 0, "none"))
+            /\ act' = Step("noechoerr", 0, "none")
+       ELSE /\ s' = BeginIssue([s EXCEPT !.err = FALSE], "echoerr")
+            /\ obs' = obs
+            /\ act' = Step("echoerr", 0, "none")
+
+(* the peer answers a request of this lifetime, without or with a partial IV of its own
+   (which comes out of the same sequence as its request numbers) *)
+DoResponse ==
+  /\ s.alive /\ s.op.k = "idle" /\ s.req /\ env.nq < MaxResponse
+  /\ \E piv \in BOOLEAN :
+       /\ s' = Response(s, IF piv THEN env.peerNext ELSE -1)
+       /\ env' = [env EXCEPT !.nq = @ + 1, !.peerNext = IF piv THEN @ + 1 ELSE @]
+       /\ act' = Step("response", IF piv THEN env.peerNext ELSE 0, IF piv THEN "piv" ELSE "none")
+  /\ obs' = obs
 
 DoClean ==
   /\ s.alive /\ s.op.k = "idle" /\ env.nk < MaxClean
@@ -288,7 +368,8 @@ DoCrash ==
   /\ obs' = ObsEvent(obs, Step("crash", 0, "none"))
   /\ act' = Step("crash", IF s.op.k = "idle" THEN 0 ELSE s.op.step, s.op.k)
 
-Next == /\ (DoLoad \/ DoProtect \/ DoUnprotect \/ DoClean \/ DoEffect \/ DoFinish \/ DoCrash)
+Next == /\ (DoLoad \/ DoProtect \/ DoUnprotect \/ DoClean \/ DoEffect \/ DoFinish \/ DoCrash
+            \/ DoRespond \/ DoEchoErr \/ DoResponse)
         /\ UNCHANGED hist
 
 Spec == Init /\ [][Next]_vars
@@ -297,7 +378,8 @@ View == <<s, env, obs>>
 
 (* every transition of the implementation-shaped graph with a shortest path *)
 EdgeNext ==
-  /\ (DoLoad \/ DoProtect \/ DoUnprotect \/ DoClean \/ DoEffect \/ DoFinish \/ DoCrash)
+  /\ (DoLoad \/ DoProtect \/ DoUnprotect \/ DoClean \/ DoEffect \/ DoFinish \/ DoCrash
+      \/ DoRespond \/ DoEchoErr \/ DoResponse)
   /\ hist' = Append(hist, act')
   /\ PrintT(<<"EDGE", s.cs, hist'>>)
 
@@ -318,6 +400,8 @@ NoBad == obs.bad = {}
 IssuedBelowDisk ==      \* B.1.1: everything issued is below what the disk promises
   \A iv \in obs.issued : s.disk.ex /\ iv[2] < s.disk.next
 MemoryBelowPersisted == s.alive /\ s.op.k = "idle" => s.ssn <= s.pers
+ReusableNonceIsUnused ==   \* why a response may re-use a request's nonce: it never has been
+  s.alive => \A n \in s.fresh : n \notin obs.reused
 KnownWindowIsAccurate ==   \* a window stored as known rejects everything accepted so far
   (s.disk.ex /\ ~s.disk.unk /\ s.disk.win.init) =>
      \A n \in obs.accOld \cup obs.accNow : ~Valid(s.disk.win, s.w, n)
